@@ -1,18 +1,28 @@
 /-
   C02 — verify accepts exactly the well-formed Binson documents.
-  Proved so far: the completeness half (every well-formed document that fits the depth
-  configuration is accepted, from ANY allocated parser object, whatever it held before).
-  The soundness half (`verify` true ⇒ the bytes are `encode v` of a well-formed `v`) and the
-  depth-code statement are not yet theorems; they are decided by the correspondence run and the
-  `decodeRef` oracle only (see MANIFEST level note).
+  `verify_iff`: from ANY allocated parser object (whatever it held before), init followed by
+  verify returns true exactly for the byte strings that are the canonical encoding of a
+  well-formed value of the right root kind within the depth limits.
+  The statement about the MAX_DEPTH error code is not yet a theorem (correspondence run and the
+  `firstObstacle` oracle decide it; see MANIFEST level note).
 -/
 import Binson.Lemmas.VerifyValid
+import Binson.Lemmas.VerifySound
 import Binson.Lemmas.DecodeRef
 namespace Binson
 
+/-- C02: verify accepts exactly the well-formed documents. `wfDoc` = integers in int64 and every
+    integer/length in its shortest form (by construction of `encode`), lengths ≤ INT32_MAX, names
+    strictly ascending, object nesting ≤ max_depth (an array root occupies one level), array nesting
+    ≤ 255; `encode v = buf` says there are no trailing bytes. -/
+theorem c02_verify_iff (g : Parser) (ha : Alloc g) (hmd : g.maxDepth ≤ 255) (buf : Array UInt8) (hsz : buf.size < 2 ^ 63) (root : Root) :
+    ((init g buf (rootNum root)).2 = true ∧ (verify (init g buf (rootNum root)).1).2.1 = true) ↔
+    ∃ v, wfDoc root g.maxDepth v = true ∧ encode v = buf.toList :=
+  verify_iff g ha hmd buf hsz root
+
 /-- ⇐ of `verify_iff`: init then verify accept the canonical encoding of every well-formed value
     of the right root kind within the depth limits -/
-theorem verify_accepts_wellformed_partial (g : Parser) (ha : Alloc g) (hmd : g.maxDepth ≤ 255) (root : Root) (v : Value)
+theorem verify_accepts_wellformed (g : Parser) (ha : Alloc g) (hmd : g.maxDepth ≤ 255) (root : Root) (v : Value)
     (hwf : wfDoc root g.maxDepth v = true) (hsz : (encode v).length < 2 ^ 63) :
     (init g (encode v).toArray (rootNum root)).2 = true ∧
     (verify (init g (encode v).toArray (rootNum root)).1).2.1 = true :=
